@@ -18,6 +18,7 @@
 //   calls=<name,n,nrhs,lda,ldb,uplo,read,info,alias;...> q=<#workspace queries> | <ok shape | exc class> | args=<same|modified:..> # values(%.17g)
 //   info is printed as 0 / + / -;  alias=1 if a pointer handed to LAPACK lies inside an operand's storage.
 #include "spy.h"
+#include <cmath>
 #include "mini_lapack.h"
 #include <cstdlib>
 using namespace adept;
@@ -25,6 +26,11 @@ using namespace adept;
 namespace {
 
 struct Bad {};
+
+// every entry of every operand is multiplied by 2^g_scale (exact): a well-conditioned system stays well conditioned at any
+// scale; the precision word of a case is `d`, `f` or `d@<k>`, `f@<k>`
+static int g_scale = 0;
+template <typename T> static T scale_factor() { return (T)std::ldexp(1.0, g_scale); }
 
 template <typename T> struct Snap {   // raw image of an operand's whole backing store
   const T* p; long n; std::vector<unsigned char> img;
@@ -55,7 +61,7 @@ template <typename T> struct Dense {
     else if (lay == "ex") { store.resize_row_major(ExpressionSize<2>(r, c)); view >>= store; expr = true; }
     else throw Bad();
     if (view.dimension(0) != r || view.dimension(1) != c) throw Bad();
-    for (int i = 0; i < r; ++i) for (int j = 0; j < c; ++j) view(i, j) = expr ? T(E[i * c + j]) * T(0.5) : T(E[i * c + j]);
+    for (int i = 0; i < r; ++i) for (int j = 0; j < c; ++j) view(i, j) = (expr ? T(E[i * c + j]) * T(0.5) : T(E[i * c + j])) * scale_factor<T>();
     snap.take(store.storage()->data(), store.storage()->n_allocated());
   }
 };
@@ -72,7 +78,7 @@ template <typename T> struct Vec {
     else if (lay == "ex") { store.resize(n); view >>= store; expr = true; }
     else throw Bad();
     if (view.dimension(0) != n) throw Bad();
-    for (int i = 0; i < n; ++i) view(i) = expr ? T(E[i]) * T(0.5) : T(E[i]);
+    for (int i = 0; i < n; ++i) view(i) = (expr ? T(E[i]) * T(0.5) : T(E[i])) * scale_factor<T>();
     if (lay == "col") snap.take(store2.storage()->data(), store2.storage()->n_allocated());
     else snap.take(store.storage()->data(), store.storage()->n_allocated());
   }
@@ -96,7 +102,7 @@ template <typename T, SymmMatrixOrientation O> struct Symm {
     if (view.dimension(0) != n) throw Bad();
     for (int i = 0; i < n; ++i) for (int j = 0; j <= i; ++j) {
       if (E[i * n + j] != E[j * n + i]) throw Bad();
-      view(i, j) = expr ? T(E[i * n + j]) * T(0.5) : T(E[i * n + j]);
+      view(i, j) = (expr ? T(E[i * n + j]) * T(0.5) : T(E[i * n + j])) * scale_factor<T>();
     }
     snap.take(d, (long)big * big);
   }
@@ -292,8 +298,15 @@ int main() {
     std::string out;
     try {
       if (w.size() < 2) throw Bad();
-      if (w[1] == "d") out = run_case<double>(w);
-      else if (w[1] == "f") out = run_case<float>(w);
+      std::string prec = w[1]; g_scale = 0;
+      size_t at = prec.find('@');
+      if (at != std::string::npos) {
+        char* e; long k = strtol(prec.c_str() + at + 1, &e, 10);
+        if (*e || at + 1 >= prec.size() || k < -200 || k > 200) throw Bad();
+        g_scale = (int)k; prec = prec.substr(0, at);
+      }
+      if (prec == "d") out = run_case<double>(w);
+      else if (prec == "f") out = run_case<float>(w);
       else throw Bad();
     } catch (const Bad&) { out = "bad-op"; }
     std::cout << out << std::endl;
